@@ -1007,3 +1007,63 @@ func TestRaceBigIterationUnderAWriter(t *testing.T) {
 	wg.Wait()
 	ev.Case(fmt.Sprintf("big-iteration/%d", n), true, "iteration-of-40000-keys-under-a-writer")
 }
+
+// TestRaceIterationStoppedByItsHandler: an iteration that its own handler stops with an error, while a writer is waiting for
+// the trie, returns; the writer then completes and the trie holds the writer's content. (An operation that never returns
+// has no place in any sequential order. The handler parks for 20 ms so that the writer is queued when the error travels
+// up through the branch nodes; the bound of 30 s is more than a thousand times that.)
+func TestRaceIterationStoppedByItsHandler(t *testing.T) {
+	seed := ev.SeedFor("TestRaceIterationStoppedByItsHandler")
+	stop := errors.New("the handler has seen enough")
+	for round := 0; round < 6; round++ {
+		mpt := mptkit.NewTrie(util.NewMemoryNodeDB(), int64(seed%2), nil)
+		n := 60 + int((seed+uint64(round)*37)%140)
+		key := func(i int) string { return fmt.Sprintf("%08x", uint32(i)*2654435761) }
+		for i := 0; i < n; i++ {
+			if _, err := mpt.Insert(util.Path(key(i)), mptkit.Val([]byte{0, byte(i)})); err != nil {
+				t.Fatalf("HARNESS: %v", err)
+			}
+		}
+		stopAfter := 1 + int((seed>>8+uint64(round)*13)%uint64(n-1))
+		parked := make(chan struct{})
+		wrote := make(chan error, 1)
+		go func() {
+			<-parked
+			_, err := mpt.Insert(util.Path(key(n+1)), mptkit.Val([]byte{1, 1}))
+			wrote <- err
+		}()
+		returned := make(chan error, 1)
+		go func() {
+			seen := 0
+			returned <- mpt.Iterate(context.Background(), func(context.Context, util.Path, util.Key, util.Node) error {
+				seen++
+				if seen == stopAfter {
+					close(parked)
+					time.Sleep(20 * time.Millisecond)
+					return stop
+				}
+				return nil
+			}, util.NodeTypeValueNode)
+		}()
+		select {
+		case err := <-returned:
+			if err == nil {
+				t.Fatalf("round %d: an iteration of %d keys whose handler returned an error at value %d returned nil", round, n, stopAfter)
+			}
+		case <-time.After(30 * time.Second):
+			t.Fatalf("round %d: an iteration of %d keys stopped by its handler at value %d, with a writer waiting for the trie, has not returned after 30 s", round, n, stopAfter)
+		}
+		select {
+		case err := <-wrote:
+			if err != nil {
+				t.Fatalf("round %d: the insert that waited for the iteration: %v", round, err)
+			}
+		case <-time.After(30 * time.Second):
+			t.Fatalf("round %d: the insert that waited for the stopped iteration has not returned after 30 s", round)
+		}
+		if v, err := mpt.GetNodeValueRaw(util.Path(key(n + 1))); err != nil || !bytes.Equal(v, []byte{1, 1}) {
+			t.Fatalf("round %d: after the stopped iteration and the insert, lookup = %x, %v", round, v, err)
+		}
+		ev.Case(fmt.Sprintf("iteration-stopped-by-handler/%d/%d", n, stopAfter), true, "iteration-stopped-by-its-handler-while-a-writer-waits")
+	}
+}
